@@ -1,4 +1,15 @@
 (* Engine entry points for C17: the same scheduler and oracles as C16 (sessions, crashes and several
-   components are events / components of the same executable model). *)
-From Pan Require Import Base.Common Base.Sx Model.Aggregator Run.R16.
-Definition run_c17 (sub : Z) (x : sx) : sx := run_c16 sub x.
+   components are events / components of the same executable model);
+   sub 4: a sequential history over live sessions (Model/AggHistory.v): (rows ops) -> states after every operation *)
+From Pan Require Import Base.Common Base.Sx Model.Aggregator Model.AggHistory Run.R16.
+
+Definition dec_qop (s : sx) : qop :=
+  let tag := sZ (sNth 0 s) in
+  if tag =? 0 then QNew else if tag =? 1 then QOk (sZs (sNth 1 s)) (sZ (sNth 2 s)) else QDie (sZs (sNth 1 s)).
+Definition enc_qst (s : qst) : sx :=
+  SL [SL (map (fun r : row => SL [ofZs (fst r); SZ (snd r)]) (qout s)); SL (map ofZs (qbuf s))].
+Definition run_history (x : sx) : sx :=
+  let R := map dec_row (sL (sNth 0 x)) in
+  SL (map enc_qst (qtrace (qstart R) (map dec_qop (sL (sNth 1 x))))).
+
+Definition run_c17 (sub : Z) (x : sx) : sx := if sub =? 4 then run_history x else run_c16 sub x.
